@@ -220,6 +220,10 @@ class ClientNode:
             ann["grid-manager-certificates"] = list(self.gm_certs[s.idx])
         self.broker.test_add_rref(s.server_id, rref, ann)
 
+    def forget(self, s):
+        """the server has left the grid as far as this client knows (connect() brings it back)"""
+        self.broker.servers.pop(s.server_id, None)
+
     def upload(self, uploadable):
         return self.uploader.upload(uploadable)
 
